@@ -14,6 +14,7 @@ import (
 	"sync"
 	"testing"
 	"testing/synctest"
+	"time"
 
 	"github.com/creachadair/jrpc2"
 	"github.com/creachadair/jrpc2/channel"
@@ -65,7 +66,14 @@ func (s *loopSvc) Assigner() (jrpc2.Assigner, error) {
 	if s.fail {
 		return nil, errors.New("no assigner")
 	}
-	s.asg = handler.Map{"m": func(ctx context.Context, req *jrpc2.Request) (any, error) { return "ok", nil }}
+	s.asg = handler.Map{"m": func(ctx context.Context, req *jrpc2.Request) (any, error) { return "ok", nil },
+		// a handler that is still at work when its connection goes away
+		"slow": func(ctx context.Context, req *jrpc2.Request) (any, error) {
+			s.run.logf("hstart %d", s.k)
+			<-s.run.gate
+			s.run.logf("hend %d", s.k)
+			return nil, nil
+		}}
 	return s.asg, nil
 }
 
@@ -75,8 +83,9 @@ func (s *loopSvc) Finish(a jrpc2.Assigner, st jrpc2.ServerStatus) {
 }
 
 type loopRun struct {
-	mu  sync.Mutex
-	Log []string
+	mu   sync.Mutex
+	Log  []string
+	gate chan struct{} // closed by the "opengate" op (or at the end of the script)
 }
 
 func (r *loopRun) logf(format string, args ...any) {
@@ -87,8 +96,17 @@ func (r *loopRun) logf(format string, args ...any) {
 
 func runLoopScenario(t *testing.T, sc *loopScenario) *loopRun {
 	r := &loopRun{}
+	gateOpen := false
+	openGate := func() {
+		if !gateOpen {
+			gateOpen = true
+			r.logf("opengate")
+			close(r.gate)
+		}
+	}
 	defer runtime.GOMAXPROCS(runtime.GOMAXPROCS(1))
 	synctest.Test(t, func(t *testing.T) {
+		r.gate = make(chan struct{}) // made inside the bubble: waiting on it is a durable block
 		acc := &scriptAccepter{ch: make(chan acceptResult)}
 		ctx, cancel := context.WithCancel(context.Background())
 		defer cancel()
@@ -173,6 +191,14 @@ func runLoopScenario(t *testing.T, sc *loopScenario) *loopRun {
 				if op.Arg < len(peers) {
 					peers[op.Arg].Send([]byte(`{"jsonrpc":"2.0","id":1,"method":"m"}`))
 				}
+			case "slownotes": // two notifications whose handlers wait for the gate: the second is still queued behind the first
+				if op.Arg < len(peers) {
+					r.logf("slownotes %d", op.Arg)
+					peers[op.Arg].Send([]byte(`{"jsonrpc":"2.0","method":"slow"}`))
+					peers[op.Arg].Send([]byte(`{"jsonrpc":"2.0","method":"slow"}`))
+				}
+			case "opengate":
+				openGate()
 			case "cancel":
 				r.logf("ctxcancel")
 				cancel()
@@ -198,6 +224,8 @@ func runLoopScenario(t *testing.T, sc *loopScenario) *loopRun {
 				ended = true
 			}
 		}
+		synctest.Wait()
+		openGate()
 		synctest.Wait()
 		// has Loop returned already (before the servers were brought down)?
 		select {
@@ -302,6 +330,63 @@ func (l *memListener) Addr() net.Addr { return &net.UnixAddr{Name: "mem", Net: "
 // c20NetAccepter: Loop over NetAccepter ends with nil when the context ends - wherever Loop happens
 // to be at that moment: blocked in Accept, between two Accepts, or not yet started - and the
 // listener is closed; every accepted connection is served and finished first.
+// c20MidRecordHangup: Loop over NetAccepter with a line framing; a client does one round trip, then
+// writes part of a record and hangs up. Its server must exit and be finished, and Loop must return
+// once the context ends. Real time (a server that spins would never let a synctest bubble settle).
+func c20MidRecordHangup(res *Result) {
+	for _, fr := range []struct {
+		name string
+		f    channel.Framing
+		tail string
+	}{{"Line", channel.Line, `{"jsonrpc":"2.0","method":"m","par`}, {"Split(0)", channel.Split(0), `{"jsonrpc":"2.0"`}, {"Line/blank", channel.Line, " "}} {
+		lst := newMemListener()
+		ctx, cancel := context.WithCancel(context.Background())
+		var mu sync.Mutex
+		finished := 0
+		svc := func() server.Service {
+			return c20Svc{finish: func() { mu.Lock(); finished++; mu.Unlock() }}
+		}
+		done := make(chan error, 1)
+		go func() { done <- server.Loop(ctx, server.NetAccepter(lst, fr.f), svc, nil) }()
+		a, b := net.Pipe()
+		lst.conns <- b
+		sep := "\n"
+		if fr.name == "Split(0)" {
+			sep = "\x00"
+		}
+		go io.Copy(io.Discard, a)
+		a.Write([]byte(`{"jsonrpc":"2.0","id":1,"method":"rpc.serverInfo"}` + sep))
+		a.Write([]byte(fr.tail)) // an unfinished record ...
+		a.Close()                // ... and the client is gone
+		in := map[string]any{"netaccepter": "client hangs up in the middle of a record", "framing": fr.name, "partial_record": fr.tail}
+		res.Case("netaccepter/mid-record/"+fr.name, true, in)
+		res.Count("netaccepter-mid-record")
+		deadline := time.Now().Add(3 * time.Second)
+		for {
+			mu.Lock()
+			n := finished
+			mu.Unlock()
+			if n == 1 || time.Now().After(deadline) {
+				if n != 1 {
+					res.Violatef("a server whose client hung up in the middle of a record never exited: Finish was not called", in, "%d services finished after 3s", n)
+				}
+				break
+			}
+			time.Sleep(2 * time.Millisecond)
+		}
+		cancel()
+		select {
+		case err := <-done:
+			if err != nil {
+				res.Violatef("Loop over NetAccepter did not return nil when the context ended", in, "Loop returned %v", err)
+			}
+		case <-time.After(3 * time.Second):
+			res.Violatef("Loop over NetAccepter never returned after the context ended", in, "a client had hung up in the middle of a record")
+			return // Loop is wedged; leave it
+		}
+	}
+}
+
 func c20NetAccepter(t *testing.T, res *Result) {
 	for _, when := range []string{"in-accept", "between-accepts", "before-start", "after-two", "pending-callback"} {
 		synctest.Test(t, func(t *testing.T) {
@@ -408,6 +493,7 @@ func TestC20(t *testing.T) {
 	var logs [][]string
 	var ins []any
 	c20NetAccepter(t, res)
+	c20MidRecordHangup(res)
 	runOne := func(sc *loopScenario) {
 		r := runLoopScenario(t, sc)
 		in := map[string]any{"loopscenario": sc}
@@ -488,6 +574,18 @@ func TestC20(t *testing.T) {
 				}
 			}
 		}
+		// a server has "fully exited" only when its handlers have returned: Finish comes after the
+		// last of them (also for a notification that was still queued when the connection ended)
+		for i, e := range r.Log {
+			var k int
+			if n, _ := fmt.Sscanf(e, "hend %d", &k); n == 1 {
+				for j := 0; j < i; j++ {
+					if strings.HasPrefix(r.Log[j], fmt.Sprintf("finish %d ", k)) {
+						res.Violatef("Finish was called before its server had fully exited (a handler was still running)", in, "conn %d; log: %s", k, shortLog(r.Log))
+					}
+				}
+			}
+		}
 		for k := 0; k < nconn; k++ {
 			if newsvc[k] != 1 {
 				res.Violatef(fmt.Sprintf("newService called %d times for one connection", newsvc[k]), in, "conn %d; log: %s", k, shortLog(r.Log))
@@ -509,7 +607,7 @@ func TestC20(t *testing.T) {
 		logs = append(logs, r.Log)
 		ins = append(ins, in)
 	}
-	kinds := []string{"connect", "connect", "connectbroken", "connectfail", "clientclose", "cancel", "call", "acceptfail", "acceptclosing", "connect+closing", "acceptfaileof", "acceptfaileofbare", "acceptclosingwrapped"}
+	kinds := []string{"connect", "connect", "connectbroken", "connectfail", "slownotes", "opengate", "clientclose", "cancel", "call", "acceptfail", "acceptclosing", "connect+closing", "acceptfaileof", "acceptfaileofbare", "acceptclosingwrapped"}
 	for i := 0; i < pick(400, 4000); i++ {
 		sc := &loopScenario{}
 		n := 1 + rng.Intn(7)
@@ -517,7 +615,7 @@ func TestC20(t *testing.T) {
 		for j := 0; j < n; j++ {
 			k := kinds[rng.Intn(len(kinds))]
 			op := loopOp{Kind: k}
-			if k == "clientclose" || k == "call" {
+			if k == "clientclose" || k == "call" || k == "slownotes" {
 				if conns == 0 {
 					continue
 				}
@@ -550,6 +648,10 @@ func TestC20(t *testing.T) {
 		{Ops: []loopOp{{Kind: "acceptclosingwrapped", Arg: 1}}},
 		{Ops: []loopOp{{Kind: "connect"}, {Kind: "acceptfaileof"}}},
 		{Ops: []loopOp{{Kind: "acceptfaileofbare"}}},
+		// a connection that goes away while one notification is running and another is queued behind it
+		{Ops: []loopOp{{Kind: "connect"}, {Kind: "slownotes", Arg: 0}, {Kind: "clientclose", Arg: 0}, {Kind: "opengate"}, {Kind: "acceptclosing"}}},
+		{Ops: []loopOp{{Kind: "connect"}, {Kind: "connect"}, {Kind: "slownotes", Arg: 1}, {Kind: "cancel"}, {Kind: "opengate"}}},
+		{Ops: []loopOp{{Kind: "connect"}, {Kind: "slownotes", Arg: 0}, {Kind: "acceptclosing"}}},
 		// servers that exit with an error status are finished like the others
 		{Ops: []loopOp{{Kind: "connectbroken", Arg: 0}, {Kind: "connect"}, {Kind: "acceptclosing"}}},
 		{Ops: []loopOp{{Kind: "connect"}, {Kind: "connectbroken", Arg: 1}, {Kind: "cancel"}}},
